@@ -16,6 +16,10 @@ structure Cell where
   size : Nat
   conceal : Bool := false
   flash : Bool := false
+  underline : Bool := false
+  bold : Bool := false
+  foreground : Nat := 7
+  background : Nat := 0
   deriving Repr, DecidableEq, Inhabited
 
 /-- extent of `vbi_page.text[]` (cross-checked with `sizeof` by the harness `consts` op) -/
@@ -27,6 +31,8 @@ structure Page where
   text : List Cell
   /-- `pg->drcs[plane] != NULL` -/
   drcs : List Bool
+  /-- `pg->color_map[40]` (0xAABBGGRR) -/
+  colorMap : List Nat := []
   deriving Repr
 
 -- vbi_size
